@@ -579,6 +579,35 @@ pub fn arb_stream(set: CharSet, max_len: usize) -> BoxedStrategy<Stream> {
         .boxed()
 }
 
+/// Long streams (hundreds to thousands of values, 10-100 KiB): state that accumulates over
+/// a run (counters, buffers refilled at block boundaries, caches) only shows on inputs far
+/// longer than one buffer. The pool is dominated by long digit runs, strings with escapes
+/// and small containers, so a block boundary falls inside every kind of token.
+pub fn arb_long_stream() -> BoxedStrategy<Stream> {
+    let pool = prop_oneof![
+        4 => "[1-9][0-9]{12,17}",
+        2 => "-[1-9][0-9]{5,17}",
+        2 => "[1-9][0-9]{0,3}\\.[0-9]{3,12}",
+        1 => "[1-9]\\.[0-9]{1,6}[eE][+-]?[0-9]{1,2}",
+        3 => "[a-z \u{e9}\u{65e5}]{0,24}".prop_map(|t| { let mut o = String::new(); crate::rjson::write_json_string(&t, &mut o); o }),
+        2 => "[a-z]{0,12}".prop_map(|t| format!("\"{}\\n\\u00e9\\\"{}\"", t, t)),
+        3 => Just("{}".to_string()),
+        2 => Just("[]".to_string()),
+        2 => "[a-z]{1,6}".prop_map(|k| format!("{{\"{}\":[1,{{\"x\":null}},\"y\"]}}", k)),
+        1 => Just("true".to_string()),
+        1 => Just("null".to_string()),
+        1 => Just("[[[[{}]]]]".to_string()),
+    ];
+    (vec(pool, 4..40), vec((any::<u16>(), prop::bool::weighted(0.2), any::<u64>()), 200..3000))
+        .prop_map(|(pool, picks)| {
+            let texts: Vec<String> = picks.iter().map(|(p, _, _)| pool[crate::engine::pick_idx(*p, pool.len())].clone()).collect();
+            let mut gaps: Vec<(bool, u64)> = picks.iter().map(|(_, t, s)| (*t, *s)).collect();
+            gaps.push((false, 7));
+            build_stream(&texts, &gaps)
+        })
+        .boxed()
+}
+
 #[cfg(test)]
 mod tests {
     use super::*;
